@@ -32,13 +32,16 @@ def main():
             base = pkg[:-5] if pkg.endswith("_test") else pkg
             if base != "dials":
                 # find a directory whose package name matches
-                for root, _, files in os.walk(wt):
-                    if ".git" in root: continue
-                    for f in files:
-                        if f.endswith(".go") and not f.endswith("_test.go"):
-                            mm = re.search(r"^package\s+(\w+)", open(os.path.join(root, f)).read(), re.M)
-                            if mm and mm.group(1) == base:
-                                pkgdir = os.path.relpath(root, wt); break
+                # (second pass: directories that hold only test files, e.g. integrationtests)
+                for testonly in (False, True):
+                    for root, _, files in os.walk(wt):
+                        if ".git" in root: continue
+                        for f in files:
+                            if f.endswith(".go") and (testonly or not f.endswith("_test.go")):
+                                mm = re.search(r"^package\s+(\w+)", open(os.path.join(root, f)).read(), re.M)
+                                if mm and mm.group(1) in (base, pkg):
+                                    pkgdir = os.path.relpath(root, wt); break
+                        if pkgdir != ".": break
                     if pkgdir != ".": break
         out["demo_package_dir"] = pkgdir
         rc, o = sh(["git", "-C", wt, "apply", "--check", patch]); out["patch_applies"] = rc == 0
